@@ -41,7 +41,7 @@ PLAN = {
     "C01": {"quick": [native("A", 12, Q), native("B", 4, Q), miri("A", MQ)], "thorough": [native("A", 24, T), native("B", 8, T), native("E", 8, T / 2), miri("A", MT), miri("B", MT // 4)]},
     "C02": {"quick": [native("A", 12, Q), native("C", 4, Q), miri("A", MQ)], "thorough": [native("A", 24, T), native("C", 8, T), native("B", 8, T / 2), miri("A", MT), miri("C", MT // 4)]},
     "C03": {"quick": [native("A", 12, Q), native("D", 4, Q), miri("A", MQ)], "thorough": [native("A", 24, T), native("D", 8, T), miri("A", MT), miri("D", MT // 4)]},
-    "C04": {"quick": [native("B", 16, Q), miri("B", MQ, count=3)], "thorough": [native("B", 32, T), miri("B", MT, count=3)]},
+    "C04": {"quick": [native("B", 12, Q), native("D", 4, Q), miri("B", MQ, count=3)], "thorough": [native("B", 24, T), native("D", 8, T), miri("B", MT, count=3), miri("D", MT // 4)]},
     "C05": {"quick": [native("C", 16, Q), miri("C", MQ, count=3)], "thorough": [native("C", 32, T), miri("C", MT, count=3)]},
     "C06": {"quick": [native("C", 16, Q), miri("C", MQ, count=3)], "thorough": [native("C", 32, T), miri("C", MT, count=3)]},
     "C07": {"quick": [native("A", 12, Q), native("D", 4, Q), miri("A", MQ)], "thorough": [native("A", 24, T), native("D", 8, T), miri("A", MT), miri("D", MT // 4)]},
@@ -51,7 +51,7 @@ PLAN = {
     "C11": {"quick": [witness(1), native("E", 16, Q), miri("E", MQ)], "thorough": [witness(1), native("E", 32, T), miri("E", MT)]},
     "C12": {"quick": [enum("F", F_BATCHES), miri("F", MQ, count=2)], "thorough": [enum("F", F_BATCHES), native("A", 8, T / 2), miri("F", MT // 2, count=2)]},
     "C13": {"quick": [witness(2), witness(3), native("G", 16, Q), miri("G", MQ, count=3)], "thorough": [witness(2), witness(3), native("G", 32, T, size="thorough"), miri("G", MT, count=3), tsan("G", 8, 20)]},
-    "C14": {"quick": [witness(2), native("D", 16, Q), miri("D", MQ)], "thorough": [witness(2), native("D", 32, T), miri("D", MT)]},
+    "C14": {"quick": [witness(2), native("D", 12, Q), native("B", 4, Q), miri("D", MQ)], "thorough": [witness(2), native("D", 24, T), native("B", 8, T), miri("D", MT), miri("B", MT // 4)]},
     "C15": {"quick": [native("B", 16, Q), miri("B", MQ, count=3)], "thorough": [native("B", 32, T), miri("B", MT, count=3)]},
     "C16": {"quick": [enum("I", 9, shards=3), native("D", 14, Q), miri("D", MQ)], "thorough": [enum("I", 9, shards=3), native("D", 32, T), miri("D", MT), miri("I", 3, count=3)]},
     "C17": {"quick": [enum("H", H_QUICK), miri("H", 8, count=2)], "thorough": [enum("H", H_THOROUGH + 600, size="thorough"), miri("H", 32, count=2)]},
@@ -72,7 +72,7 @@ RULES = {
         "C01": "seeded pipeline stress (families A, B, E): policy, capacity 1-16, 1-6 producers x 1-40 actions, 1-4 reducers with a Dispatch/Keep table, middlewares, subscribers, readers, run-time registration, stop racing or after join; non-trivial iff >=2 producer threads interleaved, >=1 Keep answer and a chain of >=2 reducers; " + SCHED,
         "C02": "families A, C, B under all three policies and five entry points; non-trivial iff >=1 cross-thread pair with ret(a)<inv(b) was compared, >=2 entry points and >=2 dispatching threads; " + SCHED,
         "C03": "families A and D; non-trivial iff >=2 producers, >=2 whole-run subscribers and a Keep action between two notifying actions; " + SCHED,
-        "C04": "family B: 1-6 producers dispatch until Err while one thread calls stop()/close();stop()/Store::stop() with a backlog built by a gated or slow reducer, then probes every entry point; non-trivial iff >=1 dispatch overlapped the shutdown, backlog >=1 at stop.inv, and both Ok and Err results occurred; " + SCHED,
+        "C04": "families B and D (D: late unsubscribes racing stop()); family B: 1-6 producers dispatch until Err while one thread calls stop()/close();stop()/Store::stop() with a backlog built by a gated or slow reducer, then probes every entry point; non-trivial iff >=1 dispatch overlapped the shutdown, backlog >=1 at stop.inv, and both Ok and Err results occurred; " + SCHED,
         "C05": "family C: gated stepper reducer (exact dispatch/step programs, capacities 1-16, 1-4 producers) and ungated stalls; non-trivial iff a dispatch was open at a gated quiescent point with a full queue and later returned (or, ungated, the queue was observed full); " + SCHED,
         "C06": "family C: burst n>capacity while the reducer is parked in a plug action, 1-4 producers, both drop policies, plus reducer-running variant; non-trivial iff >=1 discard was observed (gated: with the queue full at the quiescent point); " + SCHED,
         "C07": "families A and D; non-trivial iff >=2 producers, >=2 pipeline phases populated and (>=1 run-time registration followed by a dispatch of the registering thread, or an unsubscribe() during the stream); " + SCHED,
@@ -82,7 +82,7 @@ RULES = {
         "C11": "family E (+ witness W1): reducers return 0-4 effects per chain of all four kinds, thunks dispatching follow-ups, panicking and gated effects, middleware removing effects, client dispatch_task/thunk, stop with and without backlog; non-trivial iff >=2 effect kinds ran, >=1 follow-up was reduced and >=1 action issued >=2 effects; " + SCHED,
         "C12": "family F: exhaustive enumeration of the verdict assignments {Continue,Done,Break,Err}^(3M) for M=1..3 middlewares x {Dispatch,Keep} (64+4096+262144 assignments x 2), one action per pair on a live store in seed-shuffled order with effect/removal variants; non-trivial = every batch (all pairs are checked against the reference model); distinct = distinct enumeration batch of 2048 pairs (conservative: see assignment_answer_pairs_executed for the pair count)",
         "C13": "family G: 2-4 client threads running random programs over the whole public API, each ending with stop() (+ witnesses W2, W3 of the known iterator findings); non-trivial iff >=3 client threads and >=4 operation kinds; " + SCHED,
-        "C14": "family D (+ witness W2): iterator consumer on its own thread racing 1-4 producers and stop(), iterator created at a random point before stop(); non-trivial iff >=1 item was consumed while producers were still dispatching and end-of-stream was reached; " + SCHED,
+        "C14": "families D and B (+ witness W2): iterator consumer on its own thread racing 1-4 producers and stop(), iterator created at a random point before stop(); non-trivial iff >=1 item was consumed while producers were still dispatching and end-of-stream was reached; " + SCHED,
         "C15": "family B with drop(DroppableStore) as the stop operation and outstanding clones used by 1-6 threads; non-trivial as C04 plus >=1 clone used after the drop; " + SCHED,
         "C16": "family I: exhaustive enumeration of all sequences over {0,1,2} up to length 9 fed to a real SelectorSubscriber, plus family D (subscribe_with_selector on a live store); non-trivial iff the sequence/stream contains both a repeat and a change; distinct = enumeration length class or schedule fingerprint",
         "C17": "family H: both constructors x every sequence over 17 builder calls up to length 3 (quick, 10 440 builds) / 4 (thorough, 177 482) plus random length 5-8, each compared with the last-setting model and every Ok result probed (thread name, chain order, middleware order, queue bound, drop behaviour); distinct = enumeration chunk of 64 builds (see builds for the count)",
